@@ -186,4 +186,9 @@ theorem C16_reject_not_base58 (s r : Bytes) (hp : keyPrefix.isPrefixOf s = true)
   simp only [hp, not_true_eq_false, ↓reduceIte, this]
   exact ⟨_, rfl⟩
 
+/-- the tables and constants this property's theorems are stated over were READ OFF the current source on this run (a fact
+that can no longer be read is replaced by its expected value so that the model keeps compiling; it is then listed in
+`Facts.notExtracted` and this theorem fails) -/
+theorem C16_facts_extracted : ∀ n ∈ ["parseWhitelist", "pubKeyTable", "fromPubKeyCodes"], n ∈ Ucan.Facts.extracted := by decide
+
 end Ucan.Did
